@@ -182,6 +182,14 @@ func (c *Ctx) HavocAll(st *State, keepGhost bool) {
 		}
 		old := st.arrays[fam]
 		c.HavocFam(st, fam)
+		// a field annotated immutable is written only while its object is being built (every other
+		// store is flagged by an access obligation): objects that existed keep it
+		if strings.HasPrefix(fam, "H|") {
+			if fm := c.FieldAnnos[strings.TrimPrefix(fam, "H|")]; fm != nil && fm.Mode == "immutable" {
+				x := c.Reg.Fresh("q")
+				st.Assume(T(SBool, "(forall ((%s Int)) (=> (select %s %s) (= (select %s %s) (select %s %s))))", x, oldAlloc.S, x, st.arrays[fam].S, x, old.S, x))
+			}
+		}
 		// non-escaping locals of the executing function cannot be reached by anybody else
 		if strings.HasPrefix(fam, "H|") || strings.HasPrefix(fam, "C|") || strings.HasPrefix(fam, "E|") {
 			nw := st.arrays[fam]
